@@ -231,7 +231,15 @@ impl<S: PageSize> Iterator for PhysFrameRangeInclusive<S> {
     fn next(&mut self) -> Option<Self::Item> {
         if self.start <= self.end {
             let frame = self.start;
-            self.start += 1;
+
+            // If `start` is the last frame below 2^52, incrementing it would leave the
+            // physical address space and panic. In that case we decrement end instead.
+            let max_frame_addr = PhysAddr::new((1 << 52) - S::SIZE);
+            if self.start.start_address() < max_frame_addr {
+                self.start += 1;
+            } else {
+                self.end -= 1;
+            }
             Some(frame)
         } else {
             None
